@@ -74,6 +74,12 @@ Proof.
   - eqb_cases; inj_all; simpl in *; [|eauto]. split; [destruct (c_dead x); discriminate | reflexivity].
 Qed.
 
+Lemma inv_close_if_empty : forall s c s' evs, Inv s -> close_if_empty s c = (s', evs) -> Inv s'.
+Proof.
+  intros s c s' evs HI H. destruct (close_if_empty_cases _ _ _ _ H) as [(-> & _)|(x & _ & _ & _ & _ & _ & Hs)]; auto.
+  eapply inv_shut; eauto.
+Qed.
+
 Lemma inv_remove_sub : forall s c w s' b, Inv s -> remove_sub s c w = Some (s', b) -> Inv s'.
 Proof.
   intros s c w s' b HI H. destruct (remove_sub_cases _ _ _ _ _ H) as [x [Ex [-> _]]].
@@ -126,6 +132,12 @@ Lemma shut_frame : forall s c cz s' evs, shut s c cz = (s', evs) ->
   pc s' = pc s /\ ctxc s' = ctxc s /\ seen s' = seen s /\ next_w s' = next_w s /\ next_c s' = next_c s.
 Proof.
   intros. destruct (shut_cases _ _ _ _ _ H) as [[-> _]|[x [_ [_ [-> _]]]]]; simpl; auto.
+Qed.
+Lemma close_if_empty_frame : forall s c s' evs, close_if_empty s c = (s', evs) ->
+  pc s' = pc s /\ ctxc s' = ctxc s /\ seen s' = seen s /\ next_w s' = next_w s /\ next_c s' = next_c s.
+Proof.
+  intros. destruct (close_if_empty_cases _ _ _ _ H) as [(-> & _)|(x & _ & _ & _ & _ & _ & Hs)]; auto.
+  eapply shut_frame; eauto.
 Qed.
 Lemma remove_sub_frame : forall s c w s' b, remove_sub s c w = Some (s', b) ->
   pc s' = pc s /\ ctxc s' = ctxc s /\ seen s' = seen s /\ next_w s' = next_w s /\ next_c s' = next_c s.
@@ -260,16 +272,14 @@ Proof.
   - (* AWaitDone *) inv_step H; free_pc.
   - (* AWaitCtx *) inv_step H; free_pc.
   - (* ADialCtx *) inv_step H; free_pc.
-  - (* APublish *) inv_step H; free_pc.
+  - (* ARetry *) inv_step H; free_pc.
   - (* ABook *) inv_step H; free_pc.
+  - (* APublish *) inv_step H; free_pc.
   - (* AInsert *) inv_step H; bf HI.
     + constructor; eauto. intro Hm. apply in_map_iff in Hm. destruct Hm as [[w' j] [E Hm]]. simpl in E; subst. eauto.
     + apply in_map_iff in H0. destruct H0 as [[w' j] [E Hm]]. simpl in E; subst.
       pose proof (I3 _ HI _ _ Hm). lia.
   - (* ASend *) inv_step H; bf HI.
-  - (* ASendCtx *) inv_step H; unfold c_kill in *; bf HI;
-      (match goal with Hc : cns s _ = Some ?x, Hcl : c_closed ?x = true |- _ =>
-         destruct (I8 _ HI _ _ Hc Hcl); split; [rewrite Heqo0; discriminate | auto] end).
   - (* AUnsub *) inv_step H; bf HI.
   - (* AUnsubSend *) inv_step H; bf HI.
   - (* ARemove *) inv_step H;
@@ -280,17 +290,16 @@ Proof.
        try (eapply no_entry_after_remove; eauto; fail);
        try (destruct k; reflexivity);
        try (destruct k; simpl; try tauto; intros _; change (ctxc s i = true); apply (I7 _ HI i); rewrite Heqs0; simpl; auto; fail)).
-  - (* AClose *) inv_step H. pose proof (inv_shut _ _ _ _ _ HI Heqp) as HI1.
-    destruct (shut_frame _ _ _ _ _ Heqp) as (Ep & Ec & Es & Ew & _).
+  - (* AClose *) inv_step H. pose proof (inv_close_if_empty _ _ _ _ HI Heqp) as HI1.
+    destruct (close_if_empty_frame _ _ _ _ Heqp) as (Ep & Ec & Es & Ew & _).
     match goal with Hpc : pc s ?i = SClose _ _ |- _ =>
       eapply (inv_pc_free_gen s0); eauto; simp; try lia; rewrite ?Ep, ?Ec; try rewrite Hpc; simpl; auto;
       try (destruct k; simpl; reflexivity);
       try (destruct k; simpl; try tauto; intros _; eapply (I7 _ HI); rewrite Hpc; simpl; auto) end.
   - (* ARLRemove *) inv_step H; (eapply inv_set_cn_same; eauto; eapply inv_remove_sub; eauto).
-  - (* ARLClose *) inv_step H; (eapply inv_set_cn_same; eauto; eapply inv_shut; eauto).
+  - (* ARLClose *) inv_step H; (eapply inv_set_cn_same; eauto; eapply inv_close_if_empty; eauto).
   - (* ARLReadErr *) inv_step H; (eapply inv_set_cn_same; eauto; eapply inv_shut; eauto).
-  - (* ATimerFire *) inv_step H; eapply inv_set_cn_same; eauto.
-  - (* ATimerClose *) inv_step H; (eapply inv_shut; [|eauto]; eapply inv_set_cn_same; eauto).
+  - (* ATimerFire *) inv_step H; (eapply inv_close_if_empty; [|eauto]; eapply inv_set_cn_same; eauto).
   - (* ARemoveConn *) inv_step H. eapply (inv_ext (set_cn s c (c_set_rm c0 false))); eauto.
     eapply inv_set_cn_same; eauto.
   - (* UpAccept *) inv_step H. eapply inv_ext; eauto.
